@@ -21,7 +21,14 @@ import (
 	"time"
 )
 
-const VerifDir = "/verif"
+// VerifDir is where known_findings.json is read and evidence/replays are written: /verif, unless
+// the driver script runs from a snapshot copy (vp run), which sets VERIF_HOME to that copy.
+var VerifDir = func() string {
+	if d := os.Getenv("VERIF_HOME"); d != "" {
+		return d
+	}
+	return "/verif"
+}()
 
 // Unit is one independent piece of work (an op config, a history seed range, ...).
 type Unit = json.RawMessage
